@@ -76,12 +76,13 @@ fn book_gen(m: &HashMap<String, String>) {
         } else {
             ticks[rng.gen_range(0..ticks.len())]
         };
-        let trading = if profile == "toggle" || profile == "mixed" { rng.gen::<f64>() < 0.7 } else { true };
+        let unusual = profile == "unusual";
+        let trading = if profile == "toggle" || profile == "mixed" || unusual { rng.gen::<f64>() < 0.7 } else { true };
         // `wide`: a third of the histories start so close to the end of time that the clock reaches
         // u64::MAX (a legal forward move) in mid-history and stays there
         let t0: u64 = if wide { if rng.gen_range(0..3) == 0 { u64::MAX - rng.gen_range(0..80u64) } else { 1 << 40 } } else { rng.gen_range(0..100) };
         let np = if rng.gen::<f64>() < 0.3 { n_prices + 3 } else { n_prices };
-        let edge = profile == "edge";
+        let edge = profile == "edge" || (unusual && rng.gen::<f64>() < 0.4);
         let base = if edge {
             // grid prices at the very ends of the price range: 0, tick, .. or .., floor(MAX/tick)*tick
             if rng.gen::<f64>() < 0.5 { 0 } else { u32::MAX / tick - (np - 1) }
@@ -92,7 +93,9 @@ fn book_gen(m: &HashMap<String, String>) {
         } else {
             rng.gen_range(1..20)
         };
-        let vols = if wide {
+        let vols = if unusual {
+            vec![0, 0, 1, 2, 3, 5]
+        } else if wide {
             vec![1, 3, 1 << 16, (1 << 22) + 1, 1 << 23]
         } else if rng.gen::<f64>() < 0.5 {
             vec![1, 2, 3]
@@ -304,7 +307,7 @@ fn env_gen(m: &HashMap<String, String>) {
             seed: env_seed, t0, ticks: tks.clone(), step, trading, levels: l };
         let np = if rng.gen::<f64>() < 0.3 { 6 } else { 3 };
         let base = rng.gen_range(1..20);
-        let vols = if rng.gen::<f64>() < 0.5 { vec![1, 2, 3] } else { vec![1, 2, 5, 10] };
+        let vols = if profile == "unusual" { vec![0, 0, 1, 2, 3, 5] } else if rng.gen::<f64>() < 0.5 { vec![1, 2, 3] } else { vec![1, 2, 5, 10] };
         let mut g = EGen { rng, profile: profile.clone(), ticks: tks, base, n_prices: np, vols, step, trading };
         with_env_levels!(l, run_env_hist, &h, Some(&mut g), &[], rounds, &mut w);
     }
